@@ -15,6 +15,8 @@ class Program:
         self.statics = []
         self.fmts = []
         self.fieldattrs = []
+        self.unsafes = []
+        self.fmtlits = []
         self.crates = []
         for r in recs:
             k = r["k"]
@@ -32,6 +34,10 @@ class Program:
                 self.fmts.append(r)
             elif k == "fieldattr":
                 self.fieldattrs.append(r)
+            elif k == "unsafe":
+                self.unsafes.append(r)
+            elif k == "fmtlit":
+                self.fmtlits.append(r)
             elif k == "crate":
                 self.crates.append(r)
         # trait item -> impl fn keys (CHA)
